@@ -20,8 +20,8 @@ pub fn wrap_is_spec(KL: usize, PL: usize, default_params: bool) {
     let it: u32 = if default_params { 100_000 } else { kani::any() };
     kani::assume(it >= 1); // PBKDF2 is defined for a positive iteration count
     vmodel_core::rng_may_fail(false);
-    let d0 = vmodel_core::rng_preview(0);
-    let d1 = vmodel_core::rng_preview(1);
+    let d0 = vmodel_core::rng_preview_len(32);
+    let d1 = vmodel_core::rng_preview_len(16);
     let mut salt = [0u8; 32];
     salt.copy_from_slice(&d0[..32]);
     let mut n = [0u8; 16];
@@ -37,7 +37,7 @@ pub fn wrap_is_spec(KL: usize, PL: usize, default_params: bool) {
     vcheck_all!(
         (ok, "[C05] password wrapping always succeeds"),
         (!ok || len_ok, "[C05] PBKW blob has the fixed length 32+4+16+|key|+48"),
-        (vmodel_core::rng_draws() == 2 && vmodel_core::rng_draw(0).len == 32 && vmodel_core::rng_draw(1).len == 16, "[C16] PBKW draws a fresh 32-byte salt and a fresh 16-byte nonce"),
+        (vmodel_core::rng_draws() == 2 && vmodel_core::rng_has_len(32) && vmodel_core::rng_has_len(16), "[C16] PBKW draws a fresh 32-byte salt and a fresh 16-byte nonce"),
         (!ok || (len_ok && out[..32] == salt[..] && out[36..52] == n[..]), "[C16] the PBKW blob embeds this call's salt and nonce"),
         (!ok || (len_ok && out[32..36] == it.to_be_bytes()), "[C07] the iteration count is stored as a 4-byte big-endian integer after the salt"),
         (!ok || out[..] == spec[..], "[C07] PBKW output equals the PASERK specification's blob for the salt, nonce and parameters it embeds"),
